@@ -59,7 +59,7 @@ ExecEnd(e2, r) ==
 
 ExecReq(e, input, incls) ==
   LET b == ExecBegin(e, input, incls) IN
-  IF ~b.run THEN Q(b.e, b.cont, b.err, FALSE) ELSE ExecEnd(b.e, RunLoop(b.e.s))
+  IF ~b.run THEN Q(b.e, b.cont, b.err, FALSE) ELSE ExecEnd(b.e, Run(b.e.s))
 
 \* engine.reset after a graceful end: unwinds the whole path (UnwindToEmptyPath, code), clears TERMINATE and DIRTY,
 \* keeps every other flag (so the client flags) and empties the cache
@@ -75,8 +75,9 @@ PageOf(s, exit) == [node |-> Top(s), idx |-> s.idx, errp |-> s.errp, mapped |-> 
 FlushReq(e, rendered) ==
   IF ~e.execd THEN [e |-> e, err |-> TRUE, page |-> NoPage]                          \* flush before exec: refused, no effect
   ELSE LET dirty == DIRTY \in e.s.flags
-           s1 == [e.s EXCEPT !.flags = @ \ {DIRTY}]
-           show == dirty /\ Len(s1.path) > 0
+           show == dirty /\ Len(e.s.path) > 0
+           \* the error prefix is shown once: cleared by the page that rendered it
+           s1 == [e.s EXCEPT !.flags = @ \ {DIRTY}, !.errp = IF show /\ rendered THEN NoErr ELSE @]
            pg == IF show /\ rendered THEN PageOf(s1, e.exit)
                  ELSE IF e.exit # NoVal THEN [NoPage EXCEPT !.exit = e.exit, !.shown = TRUE] ELSE NoPage
            fail == show /\ ~rendered /\ e.exit = NoVal
